@@ -66,7 +66,7 @@ type c09Case struct {
 	Files    []c09KV       `json:"files,omitempty"`     // multipart: field name -> file names
 	Boundary string        `json:"boundary,omitempty"`  // multipart: boundary written into the BODY (default c09boundary)
 	Truncate int           `json:"truncate,omitempty"`  // multipart: cut that many bytes off the end of the body
-	LenMode  string        `json:"len_mode,omitempty"`  // "" exact | "unknown" (-1) | "zero" (0 although a body is present)
+	LenMode  string        `json:"len_mode,omitempty"`  // "" exact | "unknown" (-1) | "chunked" (-1 + TransferEncoding chunked) | "server" (real connection, chunked upload; bind / body ops without path params) | "zero" (0 although a body is present)
 }
 
 // ---------- hand catalogue ----------
@@ -822,20 +822,11 @@ func c09Request(c *c09Case) (*http.Request, string) {
 			body = body[:len(body)-c.Truncate]
 		}
 	}
-	var req *http.Request
-	if body != nil {
-		req = httptest.NewRequest(method, target, bytes.NewReader(body))
-	} else {
-		req = httptest.NewRequest(method, target, nil)
+	lenMode := c.LenMode
+	if lenMode == "server" {
+		lenMode = "chunked" // what the handler of a real server sees (used when the case cannot go through the server)
 	}
-	switch c.LenMode {
-	case "unknown":
-		if body != nil {
-			req.ContentLength = -1
-		}
-	case "zero":
-		req.ContentLength = 0
-	}
+	req := verifBodyRequest(method, target, body, lenMode)
 	if ctype != "" {
 		req.Header.Set(echo.HeaderContentType, ctype)
 	}
@@ -1024,7 +1015,51 @@ func c09Run(ci any) (res Result) {
 
 	var berr error
 	panicked := ""
+	served := false
+	if c.LenMode == "server" && bodyStep && len(c.Params) == 0 && len(c.Header) == 0 &&
+		(method == "GET" || method == "POST" || method == "PUT" || method == "PATCH" || method == "DELETE") {
+		// the same request over a real connection, body uploaded without a declared length
+		_, bodyStr := c09Request(c)
+		var body []byte
+		if c.BodyKind != "" && c.BodyKind != "none" {
+			body = []byte(bodyStr)
+		}
+		target := "/"
+		if rq := c09RawQuery(c); rq != "" {
+			target += "?" + rq
+		}
+		hdr := http.Header{}
+		if c.CType != "" {
+			hdr.Set(echo.HeaderContentType, c.CType)
+		}
+		served = verifServe(method, target, body, hdr, func(sc echo.Context) {
+			defer func() {
+				if p := recover(); p != nil {
+					panicked = fmt.Sprint(p)
+				}
+			}()
+			hasBody = sc.Request().ContentLength != 0
+			if c.Op == "body" {
+				berr = (&echo.DefaultBinder{}).BindBody(sc, dst.Interface())
+			} else {
+				berr = sc.Bind(dst.Interface())
+			}
+		})
+		if served {
+			tags = append(tags, "len:server")
+		}
+	}
+	if c.LenMode != "" && !served {
+		m := c.LenMode
+		if m == "server" {
+			m = "chunked"
+		}
+		tags = append(tags, "len:"+m)
+	}
 	func() {
+		if served {
+			return
+		}
 		defer func() {
 			if p := recover(); p != nil {
 				panicked = fmt.Sprint(p)
